@@ -1,85 +1,168 @@
+// Command z80verify decides the properties of /verif/properties.jsonl for the
+// current working tree of /repo by static analysis.
 package main
 
 import (
 	"flag"
 	"fmt"
 	"os"
+	"sort"
 	"strings"
-	"time"
 
+	"verif/internal/checks"
 	"verif/internal/engine"
+	"verif/internal/ev"
 	"verif/internal/load"
 )
 
 func main() {
-	debugArms := flag.Bool("debug-arms", false, "")
-	only := flag.String("only", "", "")
-	mut := flag.String("mut", "", "file|old|new[|occ]")
+	prop := flag.String("prop", "", "property id (C01..C19)")
+	tier := flag.String("tier", "quick", "quick | thorough")
+	mutant := flag.String("mutant", "", "apply the mutant(s) in this JSON file in memory (first entry, or -mutant-id)")
+	mutantID := flag.String("mutant-id", "", "select a mutant by id")
+	noEv := flag.Bool("no-evidence", false, "do not write evidence files")
+	explain := flag.String("explain", "", "re-analyse the construct named in a violation file, verbosely")
+	arm := flag.String("arm", "", "debug: analyse one encoding, e.g. \"ED A2\"")
+	goarch := flag.String("goarch", "", "analyse for this GOARCH")
+	list := flag.Bool("list", false, "list properties with a checker")
+	selftest := flag.Bool("selftest", false, "run the control mutants of -prop and report whether the check fires")
 	flag.Parse()
-	t0 := time.Now()
-	cfg := load.Config{}
-	if *mut != "" {
-		f := strings.Split(*mut, "|")
-		m := load.Mutant{File: f[0], Old: f[1], New: f[2]}
-		if len(f) > 3 {
-			fmt.Sscan(f[3], &m.Occurrence)
+
+	if *list {
+		var ids []string
+		for id := range checks.Registry {
+			ids = append(ids, id)
+		}
+		sort.Strings(ids)
+		fmt.Println(strings.Join(ids, " "))
+		return
+	}
+	if *selftest {
+		os.Exit(checks.PrintControls(*prop))
+	}
+	if v := os.Getenv("VERIF_TIER"); v != "" && *tier == "quick" && (v == "quick" || v == "thorough") {
+		*tier = v
+	}
+	cfg := load.Config{GOARCH: *goarch}
+	if *mutant != "" {
+		ms, err := load.ReadMutants(*mutant)
+		if err != nil {
+			fmt.Println("cannot read mutant:", err)
+			os.Exit(2)
+		}
+		var m *load.Mutant
+		for i := range ms {
+			if *mutantID == "" || ms[i].ID == *mutantID {
+				m = &ms[i]
+				break
+			}
+		}
+		if m == nil {
+			fmt.Println("mutant not found")
+			os.Exit(2)
 		}
 		ov, ok, err := m.Overlay(load.RepoDir())
-		if !ok || err != nil {
-			fmt.Println("mutant anchor not found", err)
+		if err != nil || !ok {
+			fmt.Println("SKIPPED: mutant anchor text not present in the tree", err)
 			os.Exit(3)
 		}
 		cfg.Overlay = ov
+		*noEv = true
 	}
+	if *arm != "" {
+		debugArm(cfg, *arm)
+		return
+	}
+	if *explain != "" {
+		os.Exit(doExplain(cfg, *explain))
+	}
+	ck, ok := checks.Registry[*prop]
+	if !ok {
+		fmt.Printf("no checker for property %q\n", *prop)
+		os.Exit(2)
+	}
+	os.Exit(run(*prop, ck, cfg, *tier, *noEv))
+}
+
+func run(prop string, ck checks.Check, cfg load.Config, tier string, noEv bool) (code int) {
+	r := ev.New(prop, tier, ck.Level)
+	r.NoEvidence = noEv
+	defer func() {
+		if x := recover(); x != nil {
+			r.Fatal = fmt.Sprintf("analyzer panic: %v", x)
+			code = r.Finish()
+			if code == 0 {
+				code = 1
+			}
+		}
+	}()
+	cfg.Tests = ck.NeedsTests
+	p, err := load.Load(cfg)
+	if err != nil {
+		r.Fatal = err.Error()
+		return r.Finish()
+	}
+	cx := &checks.Ctx{P: p, Tier: tier, Cfg: cfg}
+	if ck.NeedsEngine {
+		e, err := engine.New(p)
+		if err != nil {
+			r.Fatal = err.Error()
+			return r.Finish()
+		}
+		cx.E = e
+	}
+	ck.Fn(cx, r)
+	if tier == "thorough" && !noEv {
+		r.Controls = checks.RunControls(prop)
+	}
+	return r.Finish()
+}
+
+func debugArm(cfg load.Config, enc string) {
 	p, err := load.Load(cfg)
 	if err != nil {
 		fmt.Println(err)
 		os.Exit(2)
 	}
-	fmt.Printf("loaded in %.1fs\n", time.Since(t0).Seconds())
 	e, err := engine.New(p)
 	if err != nil {
 		fmt.Println(err)
 		os.Exit(2)
 	}
-	fmt.Println("decoder:", e.Exec, "switches:", e.SwitchCases, e.ConstCases, "leaves:", len(e.Leaves))
-	if *debugArms {
-		t1 := time.Now()
-		var results []*engine.ArmResult
-		if *only != "" {
-			for _, s := range e.AllSpecs() {
-				if s.String() == *only {
-					results = append(results, e.CompareArm(s))
-				}
-			}
-		} else {
-			results = e.CompareAll()
+	for _, s := range e.AllSpecs() {
+		if s.String() != enc {
+			continue
 		}
-		bad, und, impl := 0, 0, 0
-		for _, r := range results {
-			if r.Implemented {
-				impl++
-			}
-			if r.Undecided != nil {
-				und++
-				fmt.Printf("%-12s %-20s %s UNDECIDED %v\n", r.Enc, r.Info.Name, r.Pos, r.Undecided)
-				continue
-			}
-			if len(r.Diffs) > 0 {
-				bad++
-				fmt.Printf("%-12s %-20s %s [%s] impl=%v\n", r.Enc, r.Info.Name, r.Pos, r.Info.Status, r.Implemented)
-				for _, d := range r.Diffs {
-					fmt.Println("      ", d)
-				}
-				if *only != "" {
-					fmt.Println("  impl events:", r.ImplEvents)
-					fmt.Println("  ref events: ", r.RefEvents)
-				}
-			} else if *only != "" {
-				fmt.Printf("%-12s %-20s %s OK impl=%v %s\n", r.Enc, r.Info.Name, r.Pos, r.Implemented, r.Note)
-				fmt.Println("  impl events:", r.ImplEvents)
-			}
+		a := e.CompareArm(s)
+		fmt.Printf("%s  %s  [%s]  class=%s arm=%s implemented=%v\n", a.Enc, a.Info.Name, a.Info.Status, a.Info.Class, a.Pos, a.Implemented)
+		fmt.Println(" functions:", a.Funcs)
+		fmt.Println(" impl accesses:", a.ImplEvents)
+		fmt.Println(" ref accesses: ", a.RefEvents)
+		if a.Undecided != nil {
+			fmt.Println(" UNDECIDED:", a.Undecided)
 		}
-		fmt.Printf("arms=%d implemented=%d bad=%d undecided=%d in %.1fs\n", len(results), impl, bad, und, time.Since(t1).Seconds())
+		for _, d := range a.Diffs {
+			fmt.Println(" DIFF", d)
+		}
+		if a.Note != "" {
+			fmt.Println(" note:", a.Note)
+		}
 	}
+}
+
+func doExplain(cfg load.Config, path string) int {
+	b, err := os.ReadFile(path)
+	if err != nil {
+		fmt.Println(err)
+		return 2
+	}
+	fmt.Println(string(b))
+	s := string(b)
+	if i := strings.Index(s, "arm="); i >= 0 {
+		rest := s[i+4:]
+		if j := strings.Index(rest, " ("); j >= 0 {
+			debugArm(cfg, rest[:j])
+		}
+	}
+	return 0
 }
